@@ -46,6 +46,7 @@ class PolyDisc(Discipline):
         self.jac_all = bool(spec.get("jac_all", True))
         self.n_lin = 0
         self.calls = []  # (input_names, output_names) of every _compute_jacobian call
+        self.lin_data = []  # input values (io.data) at every _compute_jacobian call: the linearization point
         self.n_run = 0
         self._poly = {
             o: [
@@ -91,6 +92,7 @@ class PolyDisc(Discipline):
     def _compute_jacobian(self, input_names=(), output_names=()):
         self.n_lin += 1
         self.calls.append((tuple(input_names), tuple(output_names)))
+        self.lin_data.append({n: np.array(self.io.data[n], dtype=float).copy() for n in self.in_sizes})
         if self.jac_all or not input_names:
             input_names = list(self.in_sizes)
         if self.jac_all or not output_names:
